@@ -299,6 +299,34 @@ func init() {
 				return out
 			},
 		},
+		{ // one-to-one, fetch by a key SET computed from the value; the set may be empty (non-nil) and then selects nothing
+			name: "byKeys",
+			build: func(g *kGraph) krt.Collection[kOut] {
+				return krt.NewCollection(g.A, func(ctx krt.HandlerContext, a kObj) *kOut {
+					keys := []string{}
+					for i := 0; i < a.Val%3; i++ {
+						keys = append(keys, fmt.Sprintf("n%d/c%d", i%2, i))
+					}
+					cs := krt.Fetch(ctx, g.C, krt.FilterKeys(keys...))
+					return &kOut{Key: "byKeys/" + a.ResourceName(), Data: fmt.Sprintf("%d|%s", a.Val, describe(cs))}
+				}, g.opts("byKeys")...)
+			},
+			expect: func(g *kGraph, as, cs []kObj) map[string]string {
+				out := map[string]string{}
+				for _, a := range as {
+					var sel []kObj
+					for i := 0; i < a.Val%3; i++ {
+						for _, c := range cs {
+							if c.ResourceName() == fmt.Sprintf("n%d/c%d", i%2, i) {
+								sel = append(sel, c)
+							}
+						}
+					}
+					out["byKeys/"+a.ResourceName()] = fmt.Sprintf("%d|%s", a.Val, describe(sel))
+				}
+				return out
+			},
+		},
 	}
 }
 
